@@ -119,6 +119,9 @@ add("C08", "formula", "exploration", "runtime monitor: invariant at quiescent po
 add("C07", "formula", "exploration", "runtime monitor: differential comparison of the values of one set of inputs entered along eight routes (entry order, evaluation cadence, save-and-reload, repeated evaluation)",
     "The same inputs are entered in order, reversed, shuffled, with evaluation after every edit or once, with to_bytes/from_bytes in the middle or at the end, and evaluated twice; all routes must show identical values in every cell, spills included.",
     "Dynamic arrays are placed so that two arrays never compete for the same cells and no cycle closes through a spill (which array wins a collision depends on history in every spreadsheet); a spill blocked by plain content is generated. The exact signature of the listed finding is tolerated only for that replay's shape.")
+add("C10", "formula", "exploration", "runtime monitor: differential comparison of twin models (one kept in English/en, one switching among 5 languages and 6 locales) fed the same abstract edits",
+    "After every step the twins must agree on every value, on the R1C1 form of every parsed formula, on every stored formula text and on the defined names; the switching twin also re-enters formulas from their displayed text.",
+    "Trusted base: the harness's formula printer FL per language/locale. The generated language has no locale-dependent function, so values must not change at all. Typed boolean constants are entered in English in both twins (re-entering displayed booleans belongs to C18).")
 
 NOT_YET = {}
 
